@@ -754,6 +754,7 @@ def private_calls_only(prog, f):
 
 
 def d6(ctx, prog, modname, rule):
+    from .. import memo
     effs = {}
     n = 0
     for f in prog.funcs_in(modname):
@@ -775,6 +776,8 @@ def d6(ctx, prog, modname, rule):
                     # a private helper that works in the buffer its caller hands it: whether that buffer is the caller's own is
                     # judged at each call site (the `writes its parameter` events of the calling functions, same rule)
                     ctx.ok(rule, key, f'{desc}: private helper, the argument is judged at its {private_calls_only(prog, f)} call site(s)', f.where(st))
+                elif roots and all(r.startswith('global:') for r in roots) and all(memo.state_status(prog, r[7:].rsplit('.', 1)[0], r.rsplit('.', 1)[1]) == 'holds' for r in roots):
+                    ctx.ok(rule, key, f'{desc}: a module-level memo looked up by value snapshot (hidden-state clause S1)', f.where(st))
                 elif f.name == '_prepare_rounds' and roots == {'param:operations'}:
                     ctx.ok(rule, key, f'{desc}: judged by the template-ownership clause', f.where(st))
                 else:
